@@ -615,13 +615,42 @@ def check_cases(cases, exe, mexe, out, stats, flags, pool, do_model=True):
             stats["samples"].append({"case": case_to_json(c), "optimum": [str(v) for v in ex["xo"]],
                                      "block3": res.get("%d.block3" % k, (None, []))[0], "model_trace": mirror_events(mir)})
 
+def gen_dense_large(rng, n):
+    """large DENSE SPD system A = B'B + r I (B dense with dyadic entries in (-1,1), small ridge r = 1/64: many coefficients change
+    sides at once): long columns and large passive sets — the regime of the multi-row factor updates (modify_factor / get_column)
+    that small enumerable systems never reach"""
+    m = n // 2 + 5
+    B = [[rng.rint(-63, 63) for _ in range(n)] for _ in range(m)]          # numerators over 64
+    Ti = [[0] * n for _ in range(n)]
+    for row in B:
+        for j1 in range(n):
+            v1 = row[j1]
+            if v1:
+                tj = Ti[j1]
+                for j2 in range(n):
+                    tj[j2] += v1 * row[j2]
+    ridge = Fr(1, 64)
+    T = {}
+    for i in range(n):
+        for j in range(n):
+            v = Fr(Ti[i][j], 4096) + (ridge if i == j else 0)
+            if v != 0:
+                T[(i, j)] = v
+    b = [Fr(rng.rint(-63, 63), 64) for _ in range(n)]
+    return {"kind": "sparse", "n": n, "T": {k: v for k, v in T.items() if v != 0}, "b": b, "dense": True, "ridge": ridge}
+
 def check_sparse(rng, exe, out, stats, count, nmax):
     cases = [gen_sparse(rng.fork("sp%d" % i), rng.rint(40, nmax)) for i in range(count)]
+    ndl = max(16, count)
+    cases += [gen_dense_large(rng.fork("dl%d" % i), rng.choice([150, 200, 200, 260])) for i in range(ndl)]
+    stats["large_dense_systems"] = stats.get("large_dense_systems", 0) + ndl
     blocks = []
     for k, c in enumerate(cases):
         for s in ("block3", "block", "updown", "lh_ne"):
             if s == "lh_ne" and c["n"] > 120:
                 continue
+            if c.get("dense") and s == "block" and k % 5:
+                continue            # the large dense family aims at the factor up/down-dates of block3 and updown
             blocks.append(("%d.%s" % (k, s), fmt_sparse("%d.%s" % (k, s), s, c)))
     res, hangs = run_impl(exe, blocks, timeout=30, restarts=stats["restarts"])
     for cid, why in hangs:
@@ -643,9 +672,10 @@ def check_sparse(rng, exe, out, stats, count, nmax):
                     g[i] += v * xf[j]
             xn = max(abs(v) for v in xf)
             ts = Fr(n) * EPS * 10**5 if s == "block3" else Fr(1, 10**6) if s in ("block", "updown") else Fr(1, 10**12) * max(bn, 1)
-            # lambda_min(A) >= 4, so kappa <= ||A||/4
-            ra = ts * n * max(1, na) + 64 * n * EPS * (Fr(na) / 4) * (na * xn + bn)
-            da = n * ra                                   # ||A^-1|| <= 1/4
+            # lambda_min(A) >= ridge (4 for the banded family), so kappa <= ||A||/ridge
+            rdg = Fr(c.get("ridge", 4))
+            ra = ts * n * max(1, na) + 64 * n * EPS * (Fr(na) / rdg) * (na * xn + bn)
+            da = n * ra * 4 / rdg                         # ||A^-1|| <= 1/ridge
             neg_ok = Fr(0) if s in ("block3", "lh_ne") else Fr(1, 10**6)
             worst = Fr(0)
             for xi, gi in zip(xf, g):
@@ -655,8 +685,12 @@ def check_sparse(rng, exe, out, stats, count, nmax):
             ev, maxiter = impl_trace(lines) if s == "block3" else ([], False)
             if maxiter:
                 stats["block3_maxiter_exits"] += 1
+            # the two block-pivoting solvers give up silently after 3*nvar passes ("Iteration <3n> Infeasibles: k" is their last pass)
+            capped = s in ("block", "updown") and any(re.match(r"\s*Iteration %d Infeasibles" % (3 * n), l) for l in lines)
+            if capped:
+                stats["pjv_iteration_cap_exits"] = stats.get("pjv_iteration_cap_exits", 0) + 1
             if min(xf) < -neg_ok or worst > 0:
-                sig = ("C11:block3-maxiter-exit-not-kkt" if maxiter else "C11:%s:sparse-kkt-residual" % s) if worst > 0 else "C11:%s:negative" % s
+                sig = ("C11:block3-maxiter-exit-not-kkt" if maxiter else "C11:%s:iteration-cap-exit-not-kkt" % s if capped else "C11:%s:sparse-kkt-residual" % s) if (worst > 0 or capped) else "C11:%s:negative" % s
                 out.violation(sig, "%s on a sparse %d-variable system: min x = %.3e, KKT residual %.3e > allowed %.3e" % (s, n, float(min(xf)), float(worst), float(ra)),
                               {"sparse": {"n": n, "T": [[i, j, v] for (i, j), v in sorted(c["T"].items())], "b": c["b"]}, "solver": s,
                                "impl_trace_tail": ev[-12:], "residual": float(worst), "allowed": float(ra)})
